@@ -95,9 +95,9 @@ PROPS = {
         "assumptions": [SC, "Quiescent points: barriers inside the concurrent phase (all workers parked) and the end of every case, plus every 4th step of sequential histories. Oracle: traversal visits exactly the keys contains() finds, once, strictly increasing for ordered containers (split lists: strictly increasing split-order values, dummies even / regular odd, walked through a derived probe class); size()/empty() agree where a counter is configured; skip list: every level a strictly increasing sub-list of the level below without marked pointers; EllenBinTree check_consistency() + leaf-oriented BST walk; Bronson check_consistency() + BST/parent/version walk, and strict AVL shape (true heights, |hL-hR| <= 1, stored == true height) only while no removal has succeeded in the container (relaxed balance after removals is by design and the library's own check does not test balance)."],
     },
     "C19": {
-        "harnesses": [{"name": "iter", "variants": [0, 1, 2, 3, 4, 6, 8, 9, 10, 11, 12, 13, 14], "quick": 200000, "thorough": 2000000, "fuzz_runs": 200000}],
+        "harnesses": [{"name": "iter", "variants": list(range(0, 15)), "quick": 200000, "thorough": 2000000, "fuzz_runs": 200000}],
         "assumptions": [SC, "Oracle: the element an iterator is positioned on keeps its canary/key/tag (really freed memory, ASan); completeness for keys present and untouched during the whole pass (exactly once + order for IterableList, exactly once for hash sets over it, at least once for Feldman); erase_at linearised as 'erase exactly this tag' in the updaters' history.",
-                        "Variants 5 and 7 (MichaelHashSet/SplitListSet over IterableList with DHP and only 4 initial guards) are excluded from the generated campaign, see known_findings.json."],
+                        "Variants 4-7 (iterators of MichaelHashSet/SplitListSet over IterableList, HP and DHP) stay in the campaign; their rare use-after-free crashes (about 1 in 15000 cases) are matched against the open known finding iterable-iterator-hazard-copy-race and reported as KNOWN-FINDING, any other failure of those variants is a violation."],
     },
     "C20": {
         "harnesses": [{"name": "seq_queues", "quick": 160000, "thorough": 1600000, "fuzz_runs": 0},
